@@ -34,6 +34,9 @@ func c05Content(where string) map[string]interface{} {
 			"allOf", arr(obj("title", t+"/allOf0"), obj("$ref", "other.json#/definitions/x")),
 			"additionalProperties", obj("title", t+"/ap", "not", obj("title", t+"/ap/not")))
 	}
+	// empty objects are documents too: the any-value schema, a path item without operations
+	defs["empty"] = obj()
+	defs["holder"] = obj("title", where+":holder", "not", obj(), "items", obj(), "additionalProperties", obj(), "properties", obj("e", obj()))
 	defs["bools"] = obj("title", where+":bools", "additionalProperties", false, "additionalItems", true)
 	defs["tuple"] = obj("items", arr(obj("title", where+":t0"), obj("title", where+":t1")), "anyOf", arr(obj("title", where+":any0")),
 		"oneOf", arr(obj("title", where+":one0")), "patternProperties", obj("^x", obj("title", where+":pp")),
@@ -56,6 +59,7 @@ func c05Content(where string) map[string]interface{} {
 			"get", obj("parameters", arr(obj("name", "gp", "in", "body", "schema", obj("title", where+":gps"))),
 				"responses", obj("200", obj("description", where+":200", "schema", obj("title", where+":200s")), "default", obj("description", where+":default"))))
 	}
+	paths["/empty"] = obj()
 	return obj("swagger", "2.0", "info", obj("title", where, "version", "1"), "definitions", defs, "parameters", params, "responses", resps, "paths", paths)
 }
 
@@ -66,6 +70,7 @@ var c05Docs = map[string]string{
 	"file:///r/up.json":      "up",
 	"http://h/x/y.json":      "abs",
 	"file:///r/s2/p.json":    "s2",
+	"http://h/r/s/root.json": "same-path-other-site",
 }
 
 var c05Shared map[string]interface{}
@@ -154,6 +159,9 @@ func c05Nodes(doc interface{}) (out []struct {
 	for _, p := range sortedKeys(m["paths"].(map[string]interface{})) {
 		pi := m["paths"].(map[string]interface{})[p].(map[string]interface{})
 		add("pathItem", "paths", p)
+		if len(pi) == 0 {
+			continue // the empty path item
+		}
 		for i, pv := range pi["parameters"].([]interface{}) {
 			param(pv, []string{"paths", p, "parameters", fmt.Sprint(i)})
 		}
@@ -288,7 +296,7 @@ func c05Run(c *Ctx) {
 	}
 	rootModes := []string{"typed", "value", "generic", "nil"}
 	spells := []int{spShort, spDotSlash, spRootRel, spAbsolute, spDetour, spOwnFile, spAbsDetour}
-	for _, du := range sortedKeys(map[string]interface{}{"file:///r/s/root.json": 1, "file:///r/s/sib.json": 1, "file:///r/s/sub/o.json": 1, "file:///r/up.json": 1, "http://h/x/y.json": 1, "file:///r/s2/p.json": 1}) {
+	for _, du := range sortedKeys(map[string]interface{}{"file:///r/s/root.json": 1, "file:///r/s/sib.json": 1, "file:///r/s/sub/o.json": 1, "file:///r/up.json": 1, "http://h/x/y.json": 1, "file:///r/s2/p.json": 1, "http://h/r/s/root.json": 1}) {
 		nodes := c05Nodes(c05Universe[du])
 		for _, nd := range nodes {
 			if !c.Mine() {
@@ -388,7 +396,7 @@ func c05Run(c *Ctx) {
 func init() {
 	register(&CheckDef{
 		ID: "C05", Build: "light", Run: c05Run, RunCase: c05RunCase,
-		Rule:        "states = every node (schema at every child position, parameter, response, path item, items object at any depth) of a document whose definitions / parameters / responses / paths are named by an alphabet of 21 hostile names (among them the names a second round of unescaping maps onto another name of the alphabet), held at 6 locations (root, sibling, sub-directory, parent directory, prefix-sibling directory, absolute http URL); transitions = Resolve{Ref,Parameter,Response,PathItem,Items}WithBase (and the base-less variants) for every spelling of the URI part (7) x fragment escaping (minimal with a constructed reference value / full with a reference value decoded from JSON) x way of supplying the root (typed pointer, typed value, generic JSON, location only), plus dangling pointers (last token replaced, token appended) and dangling documents; oracle = reference-model resolution (RFC 3986 + RFC 6901) of the same reference, decoded into the requested kind; nested $refs untouched, root unchanged, dangling => error and nil",
+		Rule:        "states = every node (schema at every child position, parameter, response, path item, items object at any depth) of a document whose definitions / parameters / responses / paths are named by an alphabet of 21 hostile names (among them the names a second round of unescaping maps onto another name of the alphabet), held at 7 locations (root, sibling, sub-directory, parent directory, prefix-sibling directory, absolute http URL, the root's own path on another site); transitions = Resolve{Ref,Parameter,Response,PathItem,Items}WithBase (and the base-less variants) for every spelling of the URI part (7) x fragment escaping (minimal with a constructed reference value / full with a reference value decoded from JSON) x way of supplying the root (typed pointer, typed value, generic JSON, location only), plus dangling pointers (last token replaced, token appended) and dangling documents; oracle = reference-model resolution (RFC 3986 + RFC 6901) of the same reference, decoded into the requested kind; nested $refs untouched, root unchanged, dangling => error and nil",
 		Assumptions: []string{"the expected value is the designated JSON decoded into the requested Go type and re-encoded (losses of the codec itself are C01's business)"},
 		MinOutcomes: 2,
 	})
